@@ -4,6 +4,7 @@ import (
 	"fmt"
 	"go/token"
 	"go/types"
+	"sort"
 
 	"golang.org/x/tools/go/ssa"
 )
@@ -522,6 +523,9 @@ func ruleRefill(p *Prog, r *RuleResult) {
 						r.ok(fname+": the error of every underlying Read is examined or kept before the next Read", p.IPos(i))
 					}
 				}
+				// a retry budget for reads that return (0, nil) counts *consecutive* empty reads: the counter goes back to 0
+				// on the edge taken when bytes arrived (otherwise a slow but progressing source is cut off)
+				budgetResetCheck(p, r, f, fname, cv, loop)
 				if usesN && usesErr && satisfied && strayExit != "" {
 					r.fail(fname+"#underlying.Read#stray-exit", strayExit, "the refill loop has an exit that is decided neither by the number of bytes obtained versus requested nor by an error of the source: after some sequence of short reads it stops early and leaves a partial 64-bit word in mid-stream")
 				} else if usesN && usesErr && satisfied {
@@ -1272,4 +1276,125 @@ func errorDroppedOnSomePath(call ssa.Instruction, errv ssa.Value) (ssa.Instructi
 		return nil, false
 	}
 	return dfs(start)
+}
+
+// budgetResetCheck: see the call site in ruleRefill.
+func budgetResetCheck(p *Prog, r *RuleResult, f *ssa.Function, fname string, cv ssa.Value, loop map[*ssa.BasicBlock]bool) {
+	var nEx ssa.Value
+	for _, ref := range *cv.Referrers() {
+		if ex, ok := ref.(*ssa.Extract); ok && ex.Index == 0 {
+			nEx = ex
+		}
+	}
+	if nEx == nil {
+		return
+	}
+	var progress []edge
+	for lb := range loop {
+		ifi := blockIf(lb)
+		if ifi == nil {
+			continue
+		}
+		atom, pos := condAtom(ifi.Cond)
+		bo, ok := atom.(*ssa.BinOp)
+		if !ok || stripConv(bo.X) != nEx {
+			continue
+		}
+		c, okc := constInt(bo.Y)
+		if !okc {
+			continue
+		}
+		switch {
+		case bo.Op == token.GTR && c == 0, bo.Op == token.NEQ && c == 0, bo.Op == token.GEQ && c == 1:
+			progress = append(progress, edge{lb, succFor(pos, true)})
+		case bo.Op == token.EQL && c == 0, bo.Op == token.LEQ && c == 0, bo.Op == token.LSS && c == 1:
+			progress = append(progress, edge{lb, succFor(pos, false)})
+		}
+	}
+	if len(progress) == 0 {
+		return
+	}
+	done := map[ssa.Value]bool{}
+	var blocks []*ssa.BasicBlock
+	for lb := range loop {
+		blocks = append(blocks, lb)
+	}
+	sort.Slice(blocks, func(i, j int) bool { return blocks[i].Index < blocks[j].Index })
+	for _, lb := range blocks {
+		for _, in := range lb.Instrs {
+			ph, ok := in.(*ssa.Phi)
+			if !ok {
+				break
+			}
+			if done[ph] {
+				continue
+			}
+			fam := map[ssa.Value]bool{}
+			var growF func(v ssa.Value, d int)
+			growF = func(v ssa.Value, d int) {
+				if v == nil || fam[v] || d > 8 {
+					return
+				}
+				switch x := v.(type) {
+				case *ssa.Phi:
+					fam[v] = true
+					for _, e := range x.Edges {
+						growF(e, d+1)
+					}
+				case *ssa.BinOp:
+					if x.Op == token.ADD {
+						if c, ok := constInt(x.Y); ok && c == 1 {
+							fam[v] = true
+							growF(x.X, d+1)
+						}
+					}
+				}
+			}
+			growF(ph, 0)
+			for v := range fam {
+				done[v] = true
+			}
+			selfInc, budget := false, false
+			for v := range fam {
+				if add, ok := v.(*ssa.BinOp); ok && fam[add.X] {
+					selfInc = true
+				}
+				if refs := v.Referrers(); refs != nil {
+					for _, ref := range *refs {
+						if cmp, ok := ref.(*ssa.BinOp); ok && (cmp.Op == token.GEQ || cmp.Op == token.GTR || cmp.Op == token.EQL) {
+							if c, ok := constInt(cmp.Y); ok && c >= 2 && cmp.X == v {
+								budget = true
+							}
+						}
+					}
+				}
+			}
+			if !selfInc || !budget {
+				continue
+			}
+			reset := false
+			for v := range fam {
+				p2, ok := v.(*ssa.Phi)
+				if !ok {
+					continue
+				}
+				for pi, e := range p2.Edges {
+					if c, ok := constInt(e); ok && c == 0 {
+						pred := p2.Block().Preds[pi]
+						for _, pe := range progress {
+							if edgeDominates(f, pe, pred) || (pe.from == pred && pred.Succs[pe.succ] == p2.Block()) {
+								reset = true
+							}
+						}
+					}
+				}
+			}
+			if reset {
+				r.ok(fname+": the empty-read budget counts consecutive empty reads (reset when bytes arrive)", p.IPos(ph))
+			} else {
+				r.fail(fname+"#underlying.Read#budget-not-reset", p.IPos(ph), "the counter of empty reads that ends the refill with io.ErrNoProgress is not reset when a read delivers bytes: it counts all empty reads of a refill, so a source that delivers small pieces with occasional (0, nil) results - legal for an io.Reader - is cut off although it makes progress")
+			}
+			return
+		}
+	}
 }
